@@ -426,12 +426,36 @@ def codec_ids(F):
 
 
 def from_u8_table(F):
+    """from_u8 as a total table {0..255 -> variant name | None | "?..."}; two forms are read:
+    a `match` on the argument, and a checked lookup `TABLE.get(value as usize).copied()` in a constant
+    array of the enum (the array's bytes come from the compiler's evaluation of the constant)"""
     from .c01 import _from_u8_result
     fu = F.body(A("from_u8"))
     sw = [bb for bb in fu.normal_blocks() if fu.term(bb)["t"] == "switch"]
-    t = fu.term(sw[0])
-    arms = {int(v): tb for v, tb in t["arms"]}
-    return {x: _from_u8_result(fu, arms.get(x, t["otherwise"])) for x in range(256)}
+    if len(sw) == 1:
+        t = fu.term(sw[0])
+        d = fu.expr_of_operand(t["discr"], Site(sw[0], None))
+        if d.strip().k != "arg":
+            return {x: "?switch-on-" + d.show()[:30] for x in range(256)}
+        arms = {int(v): tb for v, tb in t["arms"]}
+        return {x: _from_u8_result(fu, arms.get(x, t["otherwise"])) for x in range(256)}
+    if not sw and not fu.loops():
+        e = fu.expr_at_return()
+        if e.k == "call" and e.x["path"].rsplit("::", 1)[-1] in ("copied", "cloned") and "option::Option" in e.x["path"]:
+            g = e.a[0]
+            if g.k == "call" and g.x["path"].endswith("::get") and "slice" in g.x["path"] and len(g.a) == 2:
+                tbl, idx = g.a[0], g.a[1]
+                while tbl.k in ("ref", "deref", "cast"):
+                    tbl = tbl.a[0]
+                ix = idx.strip()
+                while ix.k == "cast" or (ix.k == "call" and len(ix.a) == 1 and "From<u8> for usize" in ix.x["path"]):
+                    ix = ix.a[0].strip()       # widening u8 -> usize, lossless
+                enum = F.adts[A("compression_enum")]
+                discr = {int(v["discr"]): v["name"] for v in enum["variants"]}
+                if tbl.k == "text" and tbl.x.get("bytes") is not None and tbl.x.get("elem_ty") == A("compression_enum") and ix.k == "arg" and enum.get("size") == 1:
+                    by = tbl.x["bytes"]
+                    return {x: (discr.get(by[x], f"?tag-{by[x]}") if x < len(by) else None) for x in range(256)}
+    return {x: "?shape" for x in range(256)}
 
 
 def index_entry_values(F):
